@@ -865,6 +865,66 @@ def d_quota(site):
     return None
 
 
+def d_posindex(site):
+    """`deque[pos]` where pos was found by a position search over the same deque and the deque is not changed between the
+    search and the access."""
+    if site.kind != "index" or site.term is None or len(site.term["ops"]) < 2:
+        return None
+    body = site.body
+    t = site.term
+    cont_f = {(a[1], a[2]) for a in body.atoms(t["ops"][0]) if a[0] == "field" and "VecDeque" in _field_ty(body, a)}
+    if not cont_f:
+        return None
+    searches = []
+    for i, tt in body.calls(r"(client::utils::linear_search_by_key|Iterator::position|Iterator::rposition)$"):
+        if not tt["ops"]:
+            continue
+        sf = {(a[1], a[2]) for a in body.atoms(tt["ops"][0]) if a[0] == "field"}
+        if sf & cont_f and i != site.bb and site.bb in body.reachable_from(i):
+            # the index value derives from this search's result
+            if any(a[0] == "call" and a[1] == (callee_resolved(tt) or "") for a in body.atoms(t["ops"][1])):
+                searches.append(i)
+    if not searches:
+        return None
+    from effects import effects as _effects
+    ctx = _CTX[0]
+    effs = ctx.effects(body) if ctx is not None else []
+    for sb in searches:
+        between = {x for x in body.reachable_from(sb) if site.bb in body.reachable_from(x)} - {site.bb}
+        for e in effs:
+            if e.kind in ("Push", "Remove", "Clear", "OtherDeque") and e.bb in between and ({(SESSION_, f) for f in e.detail["fields"]} & cont_f):
+                return None
+    return "D-posindex: the index is the result of a position search over the same deque (%s), which is not modified between the search and the access" % sorted(f[1] for f in cont_f)
+
+
+def d_keydomain(site):
+    """Sites inside the two key functions (tx_action_id / rx_action_id): the `unreachable!` arms for packet types /
+    QoS 0 and the unwrap of a PUBLISH's packet identifier. They are partial functions; VARIANT-DOMAIN shows that every
+    call site passes a value inside the domain (linked: void while that rule is violated)."""
+    p = strip_generics(site.body.path)
+    if not re.search(r"client::utils::(tx_action_id|rx_action_id)$", p):
+        return None
+    if site.kind == "panic" and "unreachable code" in site.what:
+        return "D-linked[VARIANT-DOMAIN]: unreachable arm of a key function; every call site passes a packet inside its domain"
+    if site.kind == "unwrap" and site.operand is not None and any(a[0] == "field" and a[2] == "packet_identifier" for a in site.body.atoms(site.operand)):
+        return "D-linked[VARIANT-DOMAIN]: packet identifier of a PUBLISH handed to tx_action_id only in the QoS 1 / QoS 2 branches, where it is set"
+    return None
+
+
+SESSION_ = "client::context::Session"
+
+
+def _field_ty(body, atom):
+    adt = body.facts.adt(atom[1]) if body.facts else None
+    if not adt:
+        return ""
+    for v in adt["variants"]:
+        for f in v["fields"]:
+            if f["name"] == atom[2]:
+                return f["ty"]
+    return ""
+
+
 def load_ledger():
     p = os.path.join(VERIF, "rules", "panic_ledger.json")
     with open(p) as fh:
@@ -931,7 +991,7 @@ def discharge(ctx, site, ledger):
     r = d_derive(site)
     if r:
         return r
-    for f in (d_const, d_guard, d_memlen, d_lenfit, d_len, d_cmp, d_quota):
+    for f in (d_const, d_guard, d_memlen, d_lenfit, d_len, d_cmp, d_quota, d_posindex, d_keydomain):
         r = f(site)
         if r:
             return r
